@@ -349,7 +349,8 @@ class ApiSession(object):
 
     def fresh(self):
         """marks a fresh interpreter: no terminal node exists yet (only meaningful as the first statement of a session
-        executed in a new process, see `check_fresh`)"""
+        executed in a new process, see `check_fresh`).  The model has no state for it: a terminal holds `bool(value)`
+        whatever it is first requested with."""
         from pyModelChecking.BDD.BDD import BDDTerminalNode
         assert not BDDTerminalNode.Tnodes, 'terminal nodes already exist in this process'
         self.stmts.append('fresh')
@@ -416,6 +417,18 @@ class ApiSession(object):
         return self.add(['vars', '$%d' % i], lambda: self.pool[i].variables(), push=False,
                         show=lambda r: ' '.join(enc_name(x) for x in sorted(r)))
 
+    def tval(self, i):
+        """`.value` of the terminal node `$i`: its type and truth value (the model: always a `bool`)"""
+        return self.add(['tval', '$%d' % i], lambda: self.pool[i].value, push=False,
+                        show=lambda r: '%s %s' % (type(r).__name__, 'true' if r else 'false'))
+
+    def terminal(self, how, tok):
+        """`BDDNode(tok)` (`how='node'`) or `BDDTerminalNode(tok)`, followed by a look at the value the node holds"""
+        k = (self.node if how == 'node' else self.term)(tok)
+        if self.usable(k):
+            self.tval(k)
+        return k
+
     def str_(self, i):
         return self.add(['str', '$%d' % i], lambda: str(self.pool[i]), push=False, show=enc_text)
 
@@ -454,8 +467,8 @@ def scenario_nodes(rng):
     t1 = s.node('i1')
     t0 = s.node('i0')
     for v in TERMINAL_VALUES:
-        s.node(v)
-        s.term(v)
+        s.terminal('node', v)
+        s.terminal('term', v)
     x = '$%d' % s.node('sa', '$%d' % t0, '$%d' % t1)
     ob = '$%d' % s.obdd(x, 'la', True)
     for v in [x, ob, '$%d' % s.mkord('la')]:
@@ -555,7 +568,7 @@ def scenario_obdd(rng):
 
 def check_api(res, rng, quick):
     from pyModelChecking.BDD import BDDNode
-    BDDNode(0), BDDNode(1)     # the terminals exist (with int values) before any float is offered
+    BDDNode(0), BDDNode(1)     # the terminals exist (what they were first requested with no longer matters)
     sessions = [scenario_nodes(rng) for _ in range(2 if quick else 10)]
     sessions += [scenario_obdd(rng) for _ in range(40 if quick else 500)]
     model = lean_batch([s.line() for s in sessions])
@@ -591,7 +604,8 @@ def check_api(res, rng, quick):
 # ------------------------------------------------------------------------------------------------ 3b. fresh interpreters
 
 def scenario_fresh(rng):
-    """the first request for a terminal decides the value the node holds for the rest of the process (`1.0 == 1`)"""
+    """the first request for a terminal (`0`, `False`, `0.0`; `1`, `True`, `1.0`) must NOT decide what the node holds
+    for the rest of the process: it holds `bool(value)`, and `^` works whatever came first (`1.0 == 1`)"""
     s = ApiSession(rng)
     s.fresh()
     firsts = [rng.choice(['i0', 'bF', 'f0', None]), rng.choice(['i1', 'bT', 'f1', None])]
@@ -599,9 +613,9 @@ def scenario_fresh(rng):
         firsts.reverse()
     for v in firsts:
         if v is not None:
-            (s.node if rng.random() < 0.5 else s.term)(v)
+            s.terminal('node' if rng.random() < 0.5 else 'term', v)
     for v in ['f0', 'f1', 'i0', 'bT']:
-        s.node(v)
+        s.terminal('node', v)
     order = ['a', 'b']
     xs = [s.obdd(('e', e, order), ltok(order), None)
           for e in [('v', 'a'), ('v', 'b'), ('c', 1, '1'), ('c', 0, 'False'), ('band', ('v', 'a'), ('v', 'b'))]]
@@ -626,7 +640,7 @@ def _fresh_child(seed):
 
 
 def check_fresh(res, rng, quick):
-    """each scenario runs in a new Python process (the state under test is process-global)"""
+    """each scenario runs in a new Python process (the terminal table under test is process-global)"""
     import json
     import os
     import subprocess
@@ -829,7 +843,9 @@ def check_store(res, rng, quick):
 def guard_findings():
     """Concrete inputs on which the live library departs from the guards promised by C17 ("… a variable outside the
     ordering raises RuntimeError") or from its own documentation.  The model FOLLOWS the library on all of them (they
-    are not mismatches); each entry disappears when the library is repaired.  Not called by `run_api`."""
+    are not mismatches); each entry disappears when the library is repaired (the probes are evaluated on the live
+    code: the foreign variable below the root — `KeyError` before 6fe2efe — and the float terminal — `TypeError` from
+    `^` before 7eb7713 — are repaired and no longer listed).  Not called by `run_api`."""
     import os
     import subprocess
     import sys
@@ -878,13 +894,34 @@ def guard_findings():
 
 # ------------------------------------------------------------------------------------------------ entry point
 
-def run_api(res, rng, quick):
+class Scoped(object):
+    """`res` as seen by the API streams.  The API model follows the library in every detail (error classes of
+    ill-typed calls, printed text, ...), most of which the property does not speak about: a disagreement is a broken
+    correspondence (reported, `no-failing-input-found`), and a failing input of the property only when the model —
+    whose guards are proved (C17Api.lean) — says `RuntimeError` and the library does something else."""
+
+    def __init__(self, res):
+        self.res = res
+
+    def violation(self, what, replay, no_input=False):
+        concrete = "model 'ERR RuntimeError'" in what
+        self.res.violation(what, dict(replay, correspondence='OBDD API model (PMC/Model/BDDApi.lean) vs pyModelChecking.BDD'),
+                           no_input=not concrete)
+
+
+def run_store(res, rng, quick):
+    return check_store(Scoped(res), rng, quick)
+
+
+def run_api(res, rng, quick, store=True):
+    res = Scoped(res)
     st = {}
     st.update(check_orderings(res, rng, quick))
     st.update(check_respect(res, rng, quick))
     st.update(check_api(res, rng, quick))
     st.update(check_fresh(res, rng, quick))
-    st.update(check_store(res, rng, quick))
+    if store:
+        st.update(check_store(res, rng, quick))
     st['api_total_mismatches'] = (st['ordering_mismatches'] + st['respect_mismatches'] + st['api_mismatches']
-                                  + st['fresh_mismatches'] + st['store_mismatches'])
+                                  + st['fresh_mismatches'] + st.get('store_mismatches', 0))
     return st
